@@ -114,11 +114,26 @@ def path(c, job):
     c.summary = dict(model=model, kind=kind)
     try:
         if kind == "inf":
+            # also the sim helper at special distances (0, negative, huge, infinite): clamped, never raising
+            s0 = _mk(model, env)
+            sim0 = getattr(dsim, model + "Sim")(s0)
+            for dd, want in ((0, lo), (-0.0, lo), (-5.0, lo), (1e9, hi), (float("inf"), hi), (float("-inf"), lo), (lo, lo), (hi, hi)):
+                try:
+                    sim0.setDistance(dd)
+                    r = s0.getDistance()
+                    ok = abs(r - want) <= 1e-6 * want and sim0.getDistance() == dd
+                except Exception as e:
+                    ok = False
+                c.prove("C17.sim special-distance-clamped", ok, info=dict(d=str(dd)))
             s = _mk(model, env)
-            for v, want in ((float("inf"), lo), (float("-inf"), hi), (0.0, hi), (-1.0, hi), (5.0, None), (1e300, lo), (1e-300, hi)):
+            for v, want in ((float("inf"), lo), (float("-inf"), hi), (0.0, hi), (-1.0, hi), (5.0, None), (1e300, lo), (1e-300, hi), (5e-324, hi), (1e-320, hi), (1e-310, hi), (-0.0, hi)):
                 env.v[id(s.distance)] = v
-                r = s.getDistance()
                 c.reach("special-values")
+                try:
+                    r = s.getDistance()
+                except Exception as e:
+                    c.prove("C17.range special-voltage-in-range", False, info=dict(v=str(v), exc=repr(e)[:80]))
+                    continue
                 c.prove("C17.range special-voltage-in-range", lo <= r <= hi and r == r, info=dict(v=str(v), r=r))
                 if want is not None:
                     c.prove("C17.range special-voltage-clamps", r == want, info=dict(v=str(v), r=r))
@@ -204,8 +219,12 @@ def path(c, job):
             s = _mk(model, env)
             sim = getattr(dsim, model + "Sim")(s)
             d = c.real("d", -1000, 1000)
-            sim.setDistance(d)
-            r = s.getDistance()
+            try:
+                sim.setDistance(d)
+                r = s.getDistance()
+            except Exception as e:
+                c.prove("C17.sim set-and-read-never-raise", False, info=dict(exc=repr(e)[:80]))
+                return
             c.reach("sim")
             if c.symbolic:
                 invE = 1 / E
@@ -239,7 +258,7 @@ class C17(Spec):
     id = "C17"
     design_ref = "DESIGN.md §7 C17"
     real_capable = False
-    clauses = ["C17.range reading", "C17.range special", "C17.mono", "C17.law", "C17.sim reading", "C17.sim helper", "C17.history"]
+    clauses = ["C17.range reading", "C17.range special", "C17.mono", "C17.law", "C17.sim reading", "C17.sim helper", "C17.sim special", "C17.history"]
     stubs = ["wpilib.AnalogInput.getVoltage / AnalogInputSim.setVoltage: a symbolic real per input",
              "math.pow replaced by uninterpreted pw(x,a) + instantiated axioms (positivity, monotone in the base by sign of exponent, congruence, "
              "pw(pw(x,1/E),E)=x) + ground facts from the real libm at the clamp end-points"]
